@@ -232,6 +232,31 @@ def _run_main(res, ctx):
                     if probs:
                         res.violation("location / excerpt invariant broken for source piped on stdin",
                                       {"program": src, "channel": "stdin", "finding": [x["test_id"], x["line_number"], x["line_range"]], "excerpt": x["code"], "problems": probs})
+        # ---- (b3) one path, two texts, one process: the locations of the second scan are those of the second text (seeded change C10-m11 cached the line of a
+        #      call's keyword per (file name, call position): after an edit that kept the call's start but moved the keyword, the old line was reported — outside the file)
+        from bandit.core import config as b_config2, manager as b_manager2
+        vpath = scratch.fresh("edited.py", b"")
+        pairs2 = [("import subprocess\nsubprocess.Popen(cmd,\n                 env=e,\n                 cwd=d,\n                 close_fds=True,\n                 shell=True)\n",
+                   "import subprocess\nsubprocess.Popen(cmd, shell=True)\nx = 1\n"),
+                  ("import requests\nrequests.get(url,\n             timeout=3,\n             headers=h,\n             verify=False)\n",
+                   "import requests\nrequests.get(url, verify=False,\n             timeout=3)\n"),
+                  ("from flask import Flask\napp = Flask(__name__)\napp.run(host=h,\n        port=p,\n        debug=True)\n", "from flask import Flask\napp = Flask(__name__)\napp.run(debug=True)\n")]
+        for v1, v2 in pairs2:
+            outs = []
+            for path_, text_ in ((vpath, v1), (vpath, v2), (scratch.fresh("fresh.py", b""), v2)):
+                with open(path_, "w") as fh:
+                    fh.write(text_)
+                mgr = b_manager2.BanditManager(b_config2.BanditConfig(), "file")
+                mgr.discover_files([path_]); mgr.run_tests(); C.take_log()
+                outs.append(sorted((r.test_id, r.lineno, tuple(r.linerange), r.col_offset) for r in mgr.results))
+            res.case(("same-path-two-texts", v1), True)
+            res.count("same-path-two-texts")
+            n2 = v2.count("\n")
+            bad = [f for f in outs[1] if not (1 <= f[1] <= n2 and f[1] in f[2])]
+            if bad or outs[1] != outs[2]:
+                res.violation("locations reported for a file depend on a text the same path held earlier in the process (line outside the file / its range, or different from a fresh path)",
+                              {"first_text": v1, "second_text": v2, "second_scan_same_path": [list(map(lambda x: list(x) if isinstance(x, tuple) else x, f)) for f in outs[1]],
+                               "second_text_fresh_path": [list(map(lambda x: list(x) if isinstance(x, tuple) else x, f)) for f in outs[2]]})
         # ---- (c) insertions
         texts = [("blank", ""), ("whitespace", "    "), ("comment", "# an ordinary comment"), ("indented-comment", "        # note")]
         edits = []
@@ -273,4 +298,4 @@ def _run_main(res, ctx):
 def run(res, ctx):
     _run_main(res, ctx)
     # the neighbourhood of every construct of bandit's example files (harness/metamorph.py): model vs implementation on this family's ids
-    metamorph.family(res, ctx, C, None, 500, 3000)
+    metamorph.family(res, ctx, C, None, 500, 3000, sections="none")
